@@ -473,6 +473,10 @@ func genC13(g engine.G) *engine.Case {
 	}
 	b.Distract(2, 3)
 	b.ShuffleInputs()
+	if g.Pct(30) {
+		// converter generators registered next to the supplied converters
+		b.Sc.Gens = engine.GenGens(g, pal, false)
+	}
 	return &engine.Case{Sc: b.Sc, Reps: 2}
 }
 
